@@ -1,13 +1,16 @@
 #!/bin/sh
 # Full offline build of the Coq development (.vo, never -vos) and of the extracted model library.
-set -e
-cd "$(dirname "$0")/coq"
-mkdir -p extract/gen
-coq_makefile -f _CoqProject -o Makefile > /dev/null
-timeout 3000 make -j16 2>&1 | grep -v "^COQDEP\|^COQC\|^CLEAN" || true
-test -f extract/Extract.vo
-cd extract/gen
-cp ../helpers.ml ../main.ml .
-rm -f model.mli
-timeout 300 ocamlfind ocamlopt -w -a -c model.ml helpers.ml
+cd "$(dirname "$0")/coq" || exit 2
+mkdir -p extract/gen ../work
+coq_makefile -f _CoqProject -o Makefile > /dev/null || exit 2
+timeout 3000 make -j16 > ../work/build.log 2>&1
+st=$?
+grep -v "^COQDEP\|^COQC\|^CLEAN\|^make" ../work/build.log | head -60
+if [ $st -ne 0 ]; then echo "BUILD FAILED (coq)"; exit 1; fi
+cd extract/gen || exit 2
+if [ ! -f model.cmx ] || [ model.ml -nt model.cmx ] || [ ../helpers.ml -nt helpers.cmx ] || [ ! -f main.ml ] || [ ../main.ml -nt main.ml ]; then
+  cp ../helpers.ml ../main.ml .
+  rm -f model.mli
+  timeout 300 ocamlfind ocamlopt -w -a -c model.ml helpers.ml || { echo "BUILD FAILED (ocaml)"; exit 1; }
+fi
 echo "build ok"
